@@ -194,17 +194,22 @@ def shrink(model, line, spec_line, sig):
 
 
 def run(ctx):
-    consts = gen_c13.generate()
-    ctx.notes.append('generated constants: %r' % consts)
+    try:
+        consts = gen_c13.generate()
+        ctx.notes.append('generated constants (derived from the behaviour of the working tree): %r' % consts)
+        ctx.obligation('translator gen_c13 derived separator, specifiers, field count and open-start value from the working tree', True, 'translator', repr(consts))
+    except Exception as e:
+        # keep going on the last generated (or the documented) constants so that the failing-input search still runs
+        ctx.obligation('translator gen_c13 derived separator, specifiers, field count and open-start value from the working tree', False, 'translator', repr(e)[:400])
+        ctx.pending_broken = {'kind': 'translator', 'what': 'gen_c13 cannot derive the constants of TimeRange from the working tree: %r' % (e,)}
+        gen = os.path.join(vf.THEORIES, 'Generated', 'TimeRangeConsts.v')
+        if not os.path.exists(gen):
+            vf.write_if_changed(gen, gen_c13.DEFAULT_TEXT)
     if not ctx.coq():
-        ctx.broken_proof()
-    if ctx.thorough:
-        rc, so, se = vf.sh('timeout 1200 coqchk -o -silent -R theories FEC FEC.Properties.C13', cwd=vf.COQ, timeout=1260)
-        so = so + se
-        ax = so[so.find('* Axioms'):][:400] if '* Axioms' in so else so[-400:]
-        ctx.obligation('coqchk -o FEC.Properties.C13: closure re-checked, no axioms', rc == 0 and '* Axioms: <none>' in so, 'coqchk', ' '.join(ax.split()))
-        if not (rc == 0 and '* Axioms: <none>' in so):
-            ctx.broken_proof('coqchk rejected the closure of Properties/C13 or reported axioms')
+        if not getattr(ctx, 'pending_broken', None):
+            ctx.broken_proof()
+    elif ctx.thorough and not ctx.coqchk():
+        ctx.broken_proof('coqchk rejected the compiled development')
     model = vf.build_extracted('c13', 'C13', 'c13_driver.ml')
     r = ctx.rng
     B = Batch(model)
@@ -385,7 +390,7 @@ def run(ctx):
                          'hand transcription of TimeRange control flow (held by correspondence on public verdicts and, where present, private attributes)',
                          'Python float(str) modelled by pyfloat on [+-]digits[.digits] / inf only; other float syntax is outside the model (counted, skipped)',
                          'Python float arithmetic modelled by Z on a 1/8 s grid (exact there); binary64 rounding of non-dyadic times is not modelled',
-                         'translators/gen_c13.py (ast extraction of separator, specifiers, field-count tests, the 0.0 start test)',
+                         'translators/gen_c13.py (separator, specifiers, field count and the open-start value derived by probing parse()/is_in_range() of the working tree)',
                          'IMPL harness harness/py/c13_impl.py']
     ctx.assumptions += ['P1 times within a pass do not decrease (documented precondition)', 'bounds are not float NaN (NaN Timestamps are covered)',
                         'message P1 times and t0 are finite']
@@ -431,7 +436,10 @@ def explain(line):
 
 def replay(ctx, rec):
     case = rec.get('case', rec)
-    gen_c13.generate()
+    try:
+        gen_c13.generate()
+    except Exception as e:
+        print('(translator gen_c13 failed: %r; using the last generated constants)' % (e,))
     model = vf.build_extracted('c13', 'C13', 'c13_driver.ml')
     if 'line' not in case:
         print(case); return 0
